@@ -99,7 +99,18 @@ func init() {
 		g.p("def handlerSchedulerArgs : List (String × String) := %s", leanPairs(g.argsOfCall(h, newSched, "allocator.NewScheduler")))
 		// local definitions of the closure: name := expression
 		var locals [][2]string
+		// only what the per-connection closure itself defines: a value made once, outside it, is shared by every connection
+		var closure ast.Node = h
 		ast.Inspect(h, func(n ast.Node) bool {
+			if rs, ok := n.(*ast.ReturnStmt); ok && len(rs.Results) == 1 {
+				if fl, ok := rs.Results[0].(*ast.FuncLit); ok {
+					closure = fl
+					return false
+				}
+			}
+			return true
+		})
+		ast.Inspect(closure, func(n ast.Node) bool {
 			as, ok := n.(*ast.AssignStmt)
 			if ok && as.Tok == token.DEFINE && len(as.Lhs) == 1 && len(as.Rhs) == 1 {
 				if _, isCall := as.Rhs[0].(*ast.CallExpr); isCall {
